@@ -19,6 +19,9 @@ struct Section {
     mask: u32,
     /// version field of the parent block header inside the section: 0 = 0x20000000, 1 = the block's own version, 2 = 1
     parent_version: u8,
+    /// CompactSize forms inside the section: bits 0-3 / 4-7 = width of the coinbase / chain branch length (AuxPow::branch_wide),
+    /// bits 8-15 = Tx::wide of the parent coinbase
+    wide: u16,
 }
 
 #[derive(Clone, Debug)]
@@ -37,7 +40,7 @@ fn hash_n(seed: u8, i: usize) -> [u8; 32] {
 }
 
 fn build_section(s: &Section, seed: u8, block_version: u32) -> AuxPow {
-    let parent_coinbase = match s.parent_cb {
+    let mut parent_coinbase = match s.parent_cb {
         0 => Tx { version: 1, segwit: false, inputs: vec![TxIn::coinbase(vec![3, 1, 2, 3, 0xfa, 0xbe, b'm', b'm'])], outputs: vec![TxOut { value: 25, script: script::p2pkh(&script::h20(seed)) }], locktime: 0, wide: 0 },
         1 => Tx { version: 2, segwit: false, inputs: vec![TxIn::coinbase(vec![0x51; 100])], outputs: vec![TxOut { value: 25, script: vec![0x51; 0xfd] }, TxOut { value: 0, script: script::op_return(b"aux") }], locktime: 7, wide: 0 },
         3 => Tx { version: 1, segwit: false, inputs: vec![TxIn::coinbase(vec![0x51; 70_000])], outputs: (0..300).map(|k| TxOut { value: k, script: vec![0x51; 40 + (k as usize % 7)] }).collect(), locktime: 1, wide: 0 },
@@ -50,6 +53,7 @@ fn build_section(s: &Section, seed: u8, block_version: u32) -> AuxPow {
             Tx { version: 2, segwit: true, inputs: vec![i], outputs: vec![TxOut { value: 25, script: script::witness(0, &script::h20(seed)) }, TxOut { value: 0, script: script::op_return(&[0xaa; 36]) }], locktime: 0, wide: 0 }
         }
     };
+    parent_coinbase.wide = (s.wide >> 8) as u8;
     AuxPow {
         parent_coinbase,
         parent_hash: hash_n(seed, 999),
@@ -57,7 +61,7 @@ fn build_section(s: &Section, seed: u8, block_version: u32) -> AuxPow {
         coinbase_mask: s.mask,
         chain_branch: (0..if s.parent_cb == 5 { 0 } else { s.chain_branch }).map(|i| hash_n(seed.wrapping_add(40), i)).collect(),
         chain_mask: s.mask.rotate_left(3),
-        parent_header: Header { version: match s.parent_version { 0 => 0x20000000, 1 => block_version, _ => 1 }, prev: hash_n(seed, 500), merkle: hash_n(seed, 501), time: 1_500_000_000, bits: 0x1b00ffff, nonce: 0xdeadbeef },
+        branch_wide: (s.wide & 0xff) as u8, parent_header: Header { version: match s.parent_version { 0 => 0x20000000, 1 => block_version, _ => 1 }, prev: hash_n(seed, 500), merkle: hash_n(seed, 501), time: 1_500_000_000, bits: 0x1b00ffff, nonce: 0xdeadbeef },
     }
 }
 
@@ -65,7 +69,7 @@ pub fn run() -> Report {
     let mut rep = Report::new("C12", "e1");
     let thorough = is_thorough();
     let mut cases = Vec::new();
-    let default_sec = Section { parent_cb: 0, cb_branch: 1, chain_branch: 0, mask: 0, parent_version: 0 };
+    let default_sec = Section { parent_cb: 0, cb_branch: 1, chain_branch: 0, mask: 0, parent_version: 0, wide: 0 };
     for cn in ["namecoin", "dogecoin"] {
         let thr = coin(cn).auxpow_from.unwrap();
         let levels = [thr - 1, thr, thr + 1];
@@ -86,17 +90,30 @@ pub fn run() -> Report {
                 for &ch in &chs {
                     for mask in [0u32, 1, 0xffff_ffff] {
                         for parent_version in 0..3u8 {
-                            cases.push(Case { coin: cn, versions: vec![thr - 1, thr, thr + 1], section: Section { parent_cb, cb_branch: cb, chain_branch: ch, mask, parent_version }, label: "section-product".into() });
+                            cases.push(Case { coin: cn, versions: vec![thr - 1, thr, thr + 1], section: Section { parent_cb, cb_branch: cb, chain_branch: ch, mask, parent_version, wide: 0 }, label: "section-product".into() });
                         }
                     }
                 }
             }
         }
+        // the lengths inside the section stored in longer CompactSize forms than needed (same values): both branch lengths in
+        // every combination of the four forms, and the counts / script lengths of the parent coinbase
+        for parent_cb in 0..3u8 {
+            for (cb, ch) in [(0usize, 0usize), (2, 0), (0, 1), (2, 3)] {
+                for w in 0..16u16 {
+                    let bw = (w & 3) | ((w >> 2) << 4);
+                    cases.push(Case { coin: cn, versions: vec![thr, thr + 1], section: Section { parent_cb, cb_branch: cb, chain_branch: ch, mask: 1, parent_version: 0, wide: bw }, label: "wide-compactsize-forms".into() });
+                }
+                for tw in [1u16, 2, 3, 1 | 4, 2 | 8, 3 | 16, 1 | 32] {
+                    cases.push(Case { coin: cn, versions: vec![thr, thr + 1], section: Section { parent_cb, cb_branch: cb, chain_branch: ch, mask: 1, parent_version: 0, wide: tw << 8 }, label: "wide-compactsize-forms".into() });
+                }
+            }
+        }
         // a parent coinbase far larger than any buffer: 70 000-byte scriptSig, 300 outputs
-        cases.push(Case { coin: cn, versions: vec![thr, thr - 1, thr + 5], section: Section { parent_cb: 3, cb_branch: 3, chain_branch: 2, mask: 7, parent_version: 0 }, label: "huge-parent-coinbase".into() });
+        cases.push(Case { coin: cn, versions: vec![thr, thr - 1, thr + 5], section: Section { parent_cb: 3, cb_branch: 3, chain_branch: 2, mask: 7, parent_version: 0, wide: 0 }, label: "huge-parent-coinbase".into() });
         // a section of more than 20 MB in total (beyond 2^24 bytes and any plausible "no block is that large" budget): a 17 MB
         // parent coinbase scriptSig, 70 000 outputs, branches of 70 000 and 66 000 hashes (counts in the 0xfe CompactSize form)
-        cases.push(Case { coin: cn, versions: vec![thr, thr + 1], section: Section { parent_cb: 4, cb_branch: 70_000, chain_branch: 66_000, mask: 9, parent_version: 0 }, label: "section-beyond-20MB".into() });
+        cases.push(Case { coin: cn, versions: vec![thr, thr + 1], section: Section { parent_cb: 4, cb_branch: 70_000, chain_branch: 66_000, mask: 9, parent_version: 0, wide: 0 }, label: "section-beyond-20MB".into() });
         // alignment: the 80-byte parent header (and the fields around it) shifted byte by byte across the 32 KiB and 64 KiB marks
         // counted from the block's size field - wherever a reader refills a buffer, a field may straddle the refill
         for mark in [32_768usize, 65_536] {
@@ -104,21 +121,21 @@ pub fn run() -> Report {
                 // size(4) + header(80) + parent coinbase (4+1+36+3+len+4 +1+8+1+25 +4) + parent hash(32) + branch(1 + 32 + 4) + branch(1 + 4) -> parent header
                 let fixed = 4 + 80 + (4 + 1 + 36 + 3 + 4 + 1 + 8 + 1 + 25 + 4) + 32 + (1 + 32 + 4) + (1 + 4);
                 let len = mark + 20 - fixed - shift;
-                cases.push(Case { coin: cn, versions: vec![thr, thr + 1], section: Section { parent_cb: 5, cb_branch: 1, chain_branch: len, mask: 3, parent_version: 0 }, label: "alignment-sweep".into() });
+                cases.push(Case { coin: cn, versions: vec![thr, thr + 1], section: Section { parent_cb: 5, cb_branch: 1, chain_branch: len, mask: 3, parent_version: 0, wide: 0 }, label: "alignment-sweep".into() });
             }
         }
         // long-branch sweeps (CompactSize boundary at 0xfd)
         let longs: Vec<usize> = if thorough { vec![5, 11, 32, 33, 0xfc, 0xfd, 0xfe, 1000] } else { vec![11, 33, 0xfd] };
         for &n in &longs {
-            cases.push(Case { coin: cn, versions: vec![thr, thr], section: Section { parent_cb: 2, cb_branch: n, chain_branch: 1, mask: 5, parent_version: 1 }, label: "cb-branch-sweep".into() });
-            cases.push(Case { coin: cn, versions: vec![thr, thr], section: Section { parent_cb: 1, cb_branch: 1, chain_branch: n, mask: 5, parent_version: 2 }, label: "chain-branch-sweep".into() });
+            cases.push(Case { coin: cn, versions: vec![thr, thr], section: Section { parent_cb: 2, cb_branch: n, chain_branch: 1, mask: 5, parent_version: 1, wide: 0 }, label: "cb-branch-sweep".into() });
+            cases.push(Case { coin: cn, versions: vec![thr, thr], section: Section { parent_cb: 1, cb_branch: 1, chain_branch: n, mask: 5, parent_version: 2, wide: 0 }, label: "chain-branch-sweep".into() });
         }
     }
     // negative control: coins without AuxPoW never have a section, whatever the version
     for c in COINS.iter().filter(|c| c.auxpow_from.is_none()) {
         cases.push(Case { coin: c.name, versions: vec![1, 0x10100, 0x10101, 0x10102, 0x620101, 0x620102, 0x620103, 0x7fff_ffff, 0x8000_0000, 0xffff_fffe, 0xffff_ffff], section: default_sec.clone(), label: "negative-control".into() });
     }
-    rep.rule = "namecoin/dogecoin: all 27 orders of below/at/above-threshold versions in a 3-block chain; full product parent-coinbase form (legacy, legacy 0xfd-script, segwit) x coinbase-branch {0,1,2} x chain-branch {0,1,2} x masks {0,1,0xffffffff} x parent-header version {0x20000000, the block's own version, 1}; long-branch sweeps across the 0xfd CompactSize boundary; the parent header shifted byte by byte (130 positions) across the 32 KiB and 64 KiB marks of the block; six other coins with 11 versions around both thresholds and up to 0xffffffff (never a section); --verify on; non-trivial = distinct case with >= 1 block carrying a section, or a negative control".into();
+    rep.rule = "namecoin/dogecoin: all 27 orders of below/at/above-threshold versions in a 3-block chain; full product parent-coinbase form (legacy, legacy 0xfd-script, segwit) x coinbase-branch {0,1,2} x chain-branch {0,1,2} x masks {0,1,0xffffffff} x parent-header version {0x20000000, the block's own version, 1}; long-branch sweeps across the 0xfd CompactSize boundary; both branch lengths in all 16 combinations of the four CompactSize forms and the parent coinbase's counts / script lengths in wider forms than needed; the parent header shifted byte by byte (130 positions) across the 32 KiB and 64 KiB marks of the block; six other coins with 11 versions around both thresholds and up to 0xffffffff (never a section); --verify on; non-trivial = distinct case with >= 1 block carrying a section, or a negative control".into();
     rep.bound = json!({"cases": cases.len(), "max_branch": if thorough { 1000 } else { 0xfd }});
     let root = refmodel::world::scratch_root();
     let parts = par_fold(
